@@ -30,12 +30,17 @@ Proof. intro salt. constructor. Qed.
    in every other token each match of the word pattern is replaced by its pseudonym; leading / trailing white space kept, inner runs collapsed.
    The replacement cache may be in any state satisfying its invariant and satisfies it afterwards.  Premise: ASCII line (the model's case folding). *)
 Theorem C10_generated_words_stage_is_the_model :
-  forall (rx_of : pyval -> option re) (cls : list Z) (rw rh : pyval) (a : word_anonymizer), rx_of rh = Some (w_regex a) ->
+  forall (cls : list Z) (rw rh : pyval) (a : word_anonymizer) (pc : pyval -> pyval -> PyLib.res), words_contract rh a pc ->
   forall (fuel : nat) (line l : str) (d : list (pyval * pyval)), cache_ok (w_salt a) d -> ascii line ->
   anonymize_words_line a line = Done l ->
-  exists d', gen_SensitiveWordAnonymizer__anonymize (words_call rx_of) fuel (wobj cls rw rh (vres (w_conflicting a)) (w_salt a) d) (vstr line)
+  exists d', gen_SensitiveWordAnonymizer__anonymize pc fuel (wobj cls rw rh (vres (w_conflicting a)) (w_salt a) d) (vstr line)
              = Normal (VTuple [vstr l; wobj cls rw rh (vres (w_conflicting a)) (w_salt a) d']) /\ cache_ok (w_salt a) d'.
 Proof. exact gen_words_anonymize_refines. Qed.
 
+(* words_contract: the dispatcher answers search / finditer / group(0) of the word pattern through the regex engine; words_call does *)
+Theorem C10G_contract_is_met : forall (rx_of : pyval -> option re) (rh : pyval) (a : word_anonymizer), rx_of rh = Some (w_regex a) -> words_contract rh a (words_call rx_of).
+Proof. exact words_call_contract. Qed.
+
 Print Assumptions C10_generated_word_replacement_depends_on_salt_and_text_only.
 Print Assumptions C10_generated_words_stage_is_the_model.
+Print Assumptions C10G_contract_is_met.
